@@ -13,7 +13,7 @@ for v in idx['variants']:
     e = v.get('expect', {})
     rules = v.get('rules', {})
     own_res = e.get(own)
-    rnd = 'r9' if '-r9' in name else 'r8' if '-r8' in name else 'r7' if '-r7' in name else 'r6' if '-r6' in name else 'r5' if '-r5' in name else 'r4' if '-r4' in name else 'r3' if '-r3' in name else 'r2' if '-r2' in name else 'r1'
+    rnd = 'r10' if '-r10' in name else 'r9' if '-r9' in name else 'r8' if '-r8' in name else 'r7' if '-r7' in name else 'r6' if '-r6' in name else 'r5' if '-r5' in name else 'r4' if '-r4' in name else 'r3' if '-r3' in name else 'r2' if '-r2' in name else 'r1'
     st = stats.setdefault(rnd, [0, 0, 0])
     st[0] += 1
     if own_res == 'caught':
